@@ -204,6 +204,50 @@ def _work_sweep(task) -> core.Part:
     return p
 
 
+def nested_payloads():
+    """Information fields that themselves look like protocol traffic: a complete valid frame between flags, a frame
+    header, a P1 readout, a run of flags, an abort sequence.  'Any payload bytes' includes these."""
+    pool = X.frame_pool()
+    inner = [pool["hdr_only"], pool["short"], RH.build_frame(0xA, 0, b"\x01", b"\x21", 0x13, bytes(range(1, 30)))]
+    out = {}
+    for i, f in enumerate(inner):
+        out[f"flag+frame{i}+flag"] = b"\x01\x02\x7e" + f + b"\x7e\x03"
+        out[f"frame{i}+flag"] = f + b"\x7e"
+        out[f"flag+frame{i}"] = b"\x7e" + f
+        out[f"2x flag+frame{i}+flag"] = (b"\x7e" + f + b"\x7e") * 2
+        out[f"flag+stuffed frame{i}+flag"] = b"\x7e" + RH.stuff(f) + b"\x7e"
+    out["frame header only"] = pool["short"][:8]
+    out["p1 readout"] = b"/ABC5xyz\r\n1.0(1)\r\n!FFDA\r\n"
+    out["flags"] = b"\x7e" * 9
+    out["abort"] = b"\x11\x7d\x7e\x22"
+    out["esc esc"] = b"\x7d\x7d\x5e\x5d\x7d"
+    return out
+
+
+def _work_nested(task) -> core.Part:
+    names, = task
+    p = core.Part()
+    pays = nested_payloads()
+    short = core_pool()["short"]
+    for nm in names:
+        for dl, sl in ((1, 1), (2, 4)):
+            frame = RH.build_frame(0xA, 0, ADDRS[dl], SRC[sl], 0x13, pays[nm])
+            for frames in ([frame], [short, frame, short], [frame, frame]):
+                for cfg in X.CFGS:
+                    if not all(RH.clean_domain(f, cfg[0], cfg[1]) for f in frames):
+                        p.add("outside_domain")
+                        continue
+                    for fill in (1, 2):
+                        S = RH.stream(frames, cfg[0], fill)
+                        p.add("nontrivial")
+                        for ch in chunkings_for(len(S), "small" if len(S) < 140 else "big_q"):
+                            _chk(p, cfg, frames, fill, b"", ch, _mk(S, ch), f"payload '{nm}'")
+                        if p.full("clean_delivery"):
+                            p.capped = True
+                            return p
+    return p
+
+
 def _work_lengths(task) -> core.Part:
     """Every payload length in the task's list (not only 0,1,2,17,max): length thresholds in the reader show here."""
     lens, = task
@@ -280,6 +324,8 @@ def main(run: core.Run) -> int:
     run.merge(par.pmap(_work_seq, seqt, seed=run.seed))
     nsw = len(X.fcs_sweep_frames())
     run.merge(par.pmap(_work_sweep, [(lo, lo + 22) for lo in range(0, nsw, 22)], seed=run.seed))
+    nn = list(nested_payloads())
+    run.merge(par.pmap(_work_nested, [(nn[i::16],) for i in range(16)], seed=run.seed))
     plens = list(range(0, 301)) + (list(range(301, 2039, 7)) if q else list(range(301, 2039))) + [2036, 2037, 2038]
     plens = sorted(set(plens))
     run.merge(par.pmap(_work_lengths, [(plens[i::32],) for i in range(32)], seed=run.seed))
@@ -291,6 +337,7 @@ def main(run: core.Run) -> int:
     tot.sample({"frame_spec": "type A/S0, dest 4 octets, src 4 octets, control 13, content escflag, payload max (total 2047 octets)"})
     run.bounds = {"single_frames": f"{len(specs)} shapes with payload 0/1/2/17 + {len(big)} shapes of 2046/2047 octets",
                   "sequences": f"{len(seqt)} streams (pairs: all 36 x fill 1..3 x 5 noises; triples: {'subset' if q else 'all 216'})",
+                  "nested_payloads": f"{len(nn)} information fields that look like protocol traffic (flag+valid frame+flag, stuffed frame, header, P1 readout, flag run, abort)",
                   "payload_length_sweep": "every payload length 0..300 and " + ("every 7th" if q else "every") + " length up to 2038, two contents, 4-5 chunkings",
                   "check_sequence_sweep": f"{nsw} frames covering every octet value in every FCS/HCS position, alone and between two frames",
                   "fill_sweep": "every fill length 1..130 and 255,256,257,1000,2047,2048,4096 on two multi-frame streams",
